@@ -1,6 +1,7 @@
 import DvidModel.Gen.Gate
 import DvidModel.Props.C01
 import DvidModel.Props.C07
+import DvidModel.Gen.Fixes
 /-
   C02 — Committed versions are immutable.
   (a) The request gate: the guards of server/web.go are regenerated as boolean expressions (Gen.Gate) and
@@ -108,5 +109,8 @@ theorem manager_parents_locked (rs : List Manager.Req) :
 /- Non-vacuity: a PATCH-like method is simply not classified as a mutation by the gate (measured by the harness) -/
 example : isMutation "keyvalue" "key" "post" = true ∧ isMutation "roi" "ptquery" "post" = false ∧
     isMutation "keyvalue" "key" "patch" = false := by decide
+
+/-- the repaired shape of DeleteConflicts is present: conflict deletions of a resolve go into extension nodes, never into a committed parent -/
+theorem repaired_shape_present : Gen.resolveKeepsCommittedParents = true := by decide
 
 end Dvid.Props.C02
